@@ -656,6 +656,68 @@ theorem C06_dist_wrapping_scales (t : TP Rat) (hk : t.kind = .dur) {u pu : Strin
   rw [updateCached_dur (t := { t with v := .array draws }) hk hu hpu hs hp hlu hlpu hp0 true]
   exact ⟨rfl, rfl⟩
 
+/-! ### The distribution bridge: integer variates, converted parameters -/
+
+/-- the dtype of the variates carries no information: integer variates are converted exactly like the same numbers in the carrier -/
+theorem C06_draws_dtype_independent {α : Type} (o : NumOps α) (t : TP α) (l : List Int) :
+    postprocess o t (.ints l) = postprocess o t (.floats (l.map (fun (i : Int) => o.ofRat (i : Rat)))) := rfl
+
+/-- **Integer-valued durations drawn by a distribution** (`ss.constant(v=ss.dur(10))`, `ss.randint(high=ss.dur(45), allow_time=True)`,
+    a callable returning integers): every variate `i` becomes exactly `i · factor` steps, and steps × step length = `i` in its own unit -/
+theorem C06_int_draws_dur_steps (t : TP Rat) (hk : t.kind = .dur) {u pu : String} {lu lpu s p : Rat}
+    (hu : t.unit = some u) (hpu : t.parentUnit = some pu) (hs : t.selfDt = some s) (hp : t.parentDt = some p)
+    (hlu : unitLen u = some lu) (hlpu : unitLen pu = some lpu) (hp0 : p ≠ 0) (l : List Int) :
+    (postprocess ratOps t (.ints l)).2 = .ok () ∧
+    (postprocess ratOps t (.ints l)).1.values = some (.array (l.map (fun i => (i : Rat) * ((s / p) * (lu / lpu))))) ∧
+    ∀ i : Int, ((i : Rat) * ((s / p) * (lu / lpu))) * (p * lpu) = (i : Rat) * (s * lu) := by
+  obtain ⟨h1, h2⟩ := C06_dist_wrapping_scales t hk hu hpu hs hp hlu hlpu hp0 (l.map (fun i => ((i : Int) : Rat)))
+  refine ⟨?_, ?_, fun i => ?_⟩
+  · simpa [postprocess, Draws.toCarrier, ratOps] using h1
+  · have : (postprocess ratOps t (.ints l)) = scaleDraws ratOps t (l.map (fun i => ((i : Int) : Rat))) := by
+      simp [postprocess, Draws.toCarrier, ratOps]
+    rw [this, h2, List.map_map]; rfl
+  · exact (C06_dur_steps t hk hu hpu hs hp hlu hlpu hp0 true).2.2 _
+
+/-- **Integer-valued rates drawn by a distribution**: every variate `i` becomes exactly `i / factor` per step, and
+    per-step rate / step length = `i` in its own unit -/
+theorem C06_int_draws_rate_steps (t : TP Rat) (hk : t.kind = .rate) {u pu : String} {lu lpu s p : Rat}
+    (hu : t.unit = some u) (hpu : t.parentUnit = some pu) (hs : t.selfDt = some s) (hp : t.parentDt = some p)
+    (hlu : unitLen u = some lu) (hlpu : unitLen pu = some lpu) (hp0 : p ≠ 0) (hs0 : s ≠ 0) (l : List Int) :
+    (postprocess ratOps t (.ints l)).2 = .ok () ∧
+    (postprocess ratOps t (.ints l)).1.values = some (.array (l.map (fun i => (i : Rat) / ((s / p) * (lu / lpu))))) ∧
+    ∀ i : Int, ((i : Rat) / ((s / p) * (lu / lpu))) / (p * lpu) = (i : Rat) / (s * lu) := by
+  have hpp : (postprocess ratOps t (.ints l)) = updateCached ratOps { t with v := .array (l.map (fun i => ((i : Int) : Rat))) } true true := by
+    simp [postprocess, scaleDraws, Draws.toCarrier, ratOps]
+  rw [hpp, updateCached_rate (t := { t with v := .array (l.map (fun i => ((i : Int) : Rat))) }) hk hu hpu hs hp hlu hlpu hp0 hs0 true]
+  refine ⟨rfl, ?_, fun i => ?_⟩
+  · simp only [Val.map, List.map_map]; rfl
+  · exact (C06_rate_steps t hk hu hpu hs hp hlu hlpu hp0 hs0 true).2.2 _
+
+/-- **The parameter of `poisson` / `bernoulli`** is converted by the TimePar's own `update_values` (scalar or array branch): the
+    bridge adds nothing to, and takes nothing from, the conversion the other theorems describe -/
+theorem C06_param_is_converted {α : Type} (o : NumOps α) (t : TP α) (pv : Val α) :
+    convertParam o t pv = updateCached o { t with v := pv } true true ∧
+    (∀ l, convertParam o t (.array l) = scaleDraws o t l) := ⟨rfl, fun _ => rfl⟩
+
+/-- **What the theorems above rest on** (sensitivity, not today's code): were the converted variates cast back to the dtype of
+    the unscaled ones, 10 days drawn as an integer in a weekly module would be 1 step = 7 days; as converted by the code it is
+    10/7 steps = 10 days.  Kernel-checked. -/
+theorem C06_keep_dtype_counterexample :
+    (mk (α := Rat) .dur (.scalar 0) (some "day") (some "week") (some 1) (some 1)).toOption.map (fun t =>
+      ((postprocess ratOps t (.ints [10])).1.values, (postprocessKeepDtype t (.ints [10])).1.values,
+       decide ((10 / 7 : Rat) * 7 = 10), decide ((1 : Rat) * 7 = 10))) =
+    some (some (.array [10 / 7]), some (.array [1]), true, false) := by decide +kernel
+
+-- non-vacuity of the hypotheses of the two integer-variate theorems: a daily duration / rate in a weekly module
+example : ∃ t : TP Rat, t.kind = .dur ∧ t.unit = some "day" ∧ t.parentUnit = some "week" ∧ t.selfDt = some 1 ∧ t.parentDt = some 1 ∧
+    (postprocess ratOps t (.ints [10, 45])).1.values = some (.array [10 / 7, 45 / 7]) :=
+  ⟨{ kind := .dur, v := .scalar 0, unit := some "day", parentUnit := some "week", parentDt := some 1, selfDt := some 1, factor := none,
+     values := none, initialized := false }, rfl, rfl, rfl, rfl, rfl, by decide +kernel⟩
+example : ∃ t : TP Rat, t.kind = .rate ∧ (1 : Rat) ≠ 0 ∧
+    (postprocess ratOps t (.ints [10])).1.values = some (.array [70]) :=
+  ⟨{ kind := .rate, v := .scalar 0, unit := some "day", parentUnit := some "week", parentDt := some 1, selfDt := some 1, factor := none,
+     values := none, initialized := false }, rfl, by decide, by decide +kernel⟩
+
 /-! ### Non-vacuity -/
 
 /-- `ss.beta(0.1)` (per year) in a module that steps in days: year → day is defined, positive, and is the ratio of the lengths -/
